@@ -160,6 +160,14 @@ def sample_program_part(ctx):
                         f"{c_bool('b' in obs['values'])}, {c_bool('c2' in obs['values'])})")
                 rn = "Sync" if runner == "sync" else "Async"
                 items.append(({"graph": g, "run": rc}, 130, "gated_obs_eqb", f"gated_obs {rn} {c_nat(fuel)} {c_Z(x)} {c_Z(c)}", real))
+                # ... and the returned values themselves, names pinned to the model program's (B = 11, C = 12, b = 32, c2 = 33)
+                from harness.common import Names
+                PN = Names()
+                PN.fwd = {"B": 11, "C": 12, "gate": 13, "x": 1, "c": 2, "b": 32, "c2": 33}
+                PN.bwd = {v: k for k, v in PN.fwd.items()}
+                items.append(({"graph": g, "run": rc}, 132, "dictV_eqb",
+                              f"collect_all gated (match fst (execute (exec_basic gated_ft gated_gt) {rn} {c_nat(fuel)} gated (pv0 {c_Z(x)} {c_Z(c)})) with "
+                              f"RDone s => s | RFailed _ s => s | RPaused _ s => s end)", pdl.c_dictval(PN, obs["values"])))
     return engine.run_model_programs(ctx, "C03", ["Samples", "GateRun"], items)
 
 
